@@ -43,6 +43,8 @@ func replay(e *env) {
 			msg = e.replayPayers(&c)
 		case "encodings":
 			msg = e.replayEncodings(&c)
+		case "limits":
+			msg = e.replayLimits(&c)
 		default:
 			fmt.Println("unknown sub-check in replay:", c.Sub)
 			os.Exit(3)
